@@ -64,7 +64,7 @@ def thrownOf (input : List String) : List String :=
     | [] => []
   go ts
 
-def alwaysFields : List String := ["sp", "csp", "cg", "ctx", "ld", "rd", "cgs", "qv", "mn", "sn"]
+def alwaysFields : List String := ["sp", "csp", "cg", "ctx", "ld", "rd", "cgs", "qv", "mn", "sn", "nva"]
 def otherFields : List String := ["co", "po", "prog", "ct", "fp", "pc", "fio", "vio"]
 
 def machinePart (probe : String) : String := (splitOnStr probe " side ").headD ""
@@ -104,7 +104,11 @@ def judgeOutcome (thrown : List String) (st : JSt) (tag text : String) : List St
   let keys := (alwaysFields ++ otherFields.filter (fun k => !st.exempt.contains k)).filter (fun k => !(k == "cg" && cgLegit))
   let regBad := if st.base.isEmpty then [] else keys.filterMap (fun k =>
     if field fs k == field st.base k then none
-    else some s!"restore {tag} {k} before={field st.base k} after={field fs k}")
+    else some (s!"restore {tag} {k} before={field st.base k} after={field fs k}" ++
+      -- interpreter scratch state: say whether the error of this evaluation was the injected one (raised AT an instruction,
+      -- before it executes) or one the program raised itself
+      (if k == "nva" then
+        (if o.segs.any (fun s => (s.splitOn injected).length > 1) then " (injected fault)" else " (raised)") else "")))
   let probeBad :=
     if st.probe0 != "" && machinePart o.probe != machinePart st.probe0 then [s!"probe {tag} differs: '{o.probe}'"] else []
   -- one cycle of backend(): the snapshot at the poll point of the NEXT cycle (after the backend's own recovery) must
@@ -142,7 +146,11 @@ def judgeOutcome (thrown : List String) (st : JSt) (tag text : String) : List St
   let hbStayBad :=
     if st.probe0 != "" && field side0 "hb" == "1" && field side "hb" == "1" && o.segs.contains "fault-top" then
       [s!"heart-beat {tag} still on after its evaluation failed"] else []
-  regBad ++ loopBad ++ probeBad ++ sideBad ++ hbBad ++ hbStayBad ++ crashBad ++ cgBad ++ resBad ++ checkCatches thrown o.segs
+  -- LPC that runs between "error raised" and "error delivered" (the master's handler) saw interpreter scratch state of the
+  -- failed instruction
+  let scratchBad := if o.segs.any (fun s => (s.splitOn "scratch-mismatch").length > 1) then
+    [s!"scratch {tag} the master's error handler ran with interpreter scratch state left by the failed instruction"] else []
+  regBad ++ scratchBad ++ loopBad ++ probeBad ++ sideBad ++ hbBad ++ hbStayBad ++ crashBad ++ cgBad ++ resBad ++ checkCatches thrown o.segs
 
 def judgeLine (thrown : List String) (st : JSt) (line : String) : JSt :=
   if line.startsWith "crash" || line.startsWith "sanitizer" then { st with bad := st.bad ++ [s!"crash {line}"] }
